@@ -3,7 +3,7 @@
    root fields of a mutation are a chain of sequential compositions (`sequence_abort`, the
    transcription of execute_fields_serially), selected by the operation type. *)
 From Coq Require Import ZArith List String Bool Permutation.
-From TV Require Import Py.Prelude Model.Schema Model.ImplInput Model.ImplExec Model.Async Proofs.AsyncProofs.
+From TV Require Import Py.Prelude Model.Schema Model.ImplInput Model.ImplExec Model.Async Proofs.AsyncProofs Proofs.SerialChain.
 Import ListNotations.
 Open Scope list_scope.
 
@@ -48,6 +48,54 @@ Proof.
   destruct r'; reflexivity.
 Qed.
 
+(* ---------- the WHOLE chain, any number of root fields (Proofs/SerialChain.v) ---------- *)
+
+(* under EVERY schedule, a complete run of the chain of root fields is a SERIAL run: one entry per
+   root field that ran -- key, result, and a complete log under a schedule of its own --, the
+   result of the chain is computed from the entries front to back and the log of the chain is the
+   concatenation of the entries' logs in document order: no event of a root field, the finishes
+   of its whole sub-selection included, is separated from the others by an event of another one *)
+Theorem C09_whole_chain_is_serial kps picks r evs :
+  run_sched oracle picks (sequence_abort kps) = Some (PDone r, evs) ->
+  exists outs, serial_run oracle kps outs /\ r = chain_value outs /\ evs = chain_log outs.
+Proof. exact (chain_is_serial oracle kps picks r evs). Qed.
+
+(* the root fields that ran are an initial segment of the collected ones, in document order *)
+Theorem C09_ran_fields_are_a_document_order_prefix kps outs :
+  serial_run oracle kps outs -> exists later, map fst kps = map out_key outs ++ later.
+Proof. exact (serial_run_is_a_prefix oracle kps outs). Qed.
+
+(* each entry is a complete run of the root field at its position *)
+Theorem C09_entries_are_complete_runs kps outs :
+  serial_run oracle kps outs ->
+  Forall2 (fun kp o => fst kp = out_key o /\
+             exists picks, run_sched oracle picks (snd kp) = Some (PDone (out_res o), snd o))
+          (firstn (List.length outs) kps) outs.
+Proof. exact (serial_run_entries oracle kps outs). Qed.
+
+(* a contained failure does not stop the chain: either EVERY root field ran and completed, or the
+   last one that ran raised (and all before it completed) *)
+Theorem C09_chain_stops_only_on_raise kps outs :
+  serial_run oracle kps outs ->
+  (Forall (fun o => exists v, out_res o = ROpt v) outs /\ List.length outs = List.length kps) \/
+  (exists front last, outs = front ++ [last] /\
+     Forall (fun o => exists v, out_res o = ROpt v) front /\ (forall v, out_res last <> ROpt v)).
+Proof. exact (serial_run_stops_only_on_raise oracle kps outs). Qed.
+
+(* the object built when every root field completed lists the keys in document order *)
+Theorem C09_completed_chain_lists_keys_in_document_order (outs : list outcome1) :
+  Forall (fun o => exists v, out_res o = ROpt v) outs ->
+  chain_value outs =
+  RKVs (flat_map (fun o => match out_res o with ROpt (Some v) => [(out_key o, v)] | _ => [] end) outs).
+Proof. exact (all_completed_value outs). Qed.
+
+(* a raising root field is what the chain returns (execute_operation turns it into data: null) *)
+Theorem C09_raise_is_the_chain_result front (last : outcome1) :
+  Forall (fun o => exists v, out_res o = ROpt v) front -> (forall v, out_res last <> ROpt v) ->
+  (forall kv, out_res last <> RKVs kv) ->
+  chain_value (front ++ [last]) = out_res last.
+Proof. exact (raised_value front last). Qed.
+
 End C09.
 
 (* the operation type selects the serial chain: a mutation never fans its root fields out *)
@@ -62,7 +110,42 @@ Proof.
   intros Hk Hrt Hc. unfold a_execute_operation. rewrite Hk, Hrt, Hc. eexists. reflexivity.
 Qed.
 
+(* ... hence, under EVERY schedule, the log of a mutation begins with a serial run of its root
+   fields in document order (what follows is the assembly of the response: no resolver call) *)
+Theorem C09_mutation_log_is_serial oracle sch doc vs U cfg op root rt fs v picks r evs :
+  o_kind op = OpMutation -> root_type_of sch OpMutation = Some rt ->
+  collect_fields sch doc vs COLLECT_FUEL rt (o_sels op) [] [] = Some (fs, v) ->
+  run_sched oracle picks (a_execute_operation sch doc vs U cfg op root) = Some (PDone r, evs) ->
+  exists outs tail,
+    serial_run oracle
+      (map (fun kn => (fst kn, a_resolve_field sch doc vs U cfg EXEC_FUEL rt root [] (fst kn) (snd kn))) fs) outs /\
+    evs = chain_log outs ++ tail.
+Proof.
+  intros Hk Hrt Hc H.
+  destruct (C09_mutation_uses_the_serial_chain sch doc vs U cfg op root rt fs v Hk Hrt Hc) as [finish E].
+  rewrite E in H. exact (chain_then_is_serial oracle _ finish picks r evs H).
+Qed.
+
+(* non-vacuity: two root fields, each awaiting one resolver; the only complete schedule releases
+   them in document order and the log is the two complete logs one after the other *)
+Example C09_nonvacuous :
+  let orc : site -> string -> string -> pyval -> list (string * pyval) -> uret := fun _ _ _ _ _ => URet PNone in
+  let f (k : string) (v : option pyval) := Call [KName k] "Mutation" k PNone [] (fun _ => Ret (ROpt v)) in
+  let chain := [("a"%string, f "a"%string None); ("b"%string, f "b"%string (Some (PInt 1)))] in
+  run_sched orc [[KName "a"%string]; [KName "b"%string]] (sequence_abort chain)
+    = Some (PDone (RKVs [("b"%string, PInt 1)]),
+            [EStart [KName "a"%string]; EFinish [KName "a"%string]; EStart [KName "b"%string]; EFinish [KName "b"%string]]) /\
+  run_sched orc [[KName "b"%string]; [KName "a"%string]] (sequence_abort chain) = None.
+Proof. vm_compute. split; reflexivity. Qed.
+
 Print Assumptions C09_sequential_composition_is_serial.
 Print Assumptions C09_root_field_completes_before_next_starts.
 Print Assumptions C09_chain_continues_or_stops.
 Print Assumptions C09_mutation_uses_the_serial_chain.
+Print Assumptions C09_whole_chain_is_serial.
+Print Assumptions C09_ran_fields_are_a_document_order_prefix.
+Print Assumptions C09_entries_are_complete_runs.
+Print Assumptions C09_chain_stops_only_on_raise.
+Print Assumptions C09_completed_chain_lists_keys_in_document_order.
+Print Assumptions C09_raise_is_the_chain_result.
+Print Assumptions C09_mutation_log_is_serial.
